@@ -90,8 +90,8 @@ def mc_configs(tier):
 
 
 def gen_configs(tier):
-    d = 3 if tier == "quick" else 4
-    return [
+    d = 4 if tier == "quick" else 5
+    cfgs = [
         ("full-mult", consts(MaxDepth=d)),
         ("full-scaled-pow", consts(FullKinds={"smult", "spow", "pow"}, BMax=S, BMin=-S, E=2, W0Base=0, W0Step=2 * S,
                                    PartVals={S // 2}, Forms={"pair"}, Reds={"default"}, PowU=2, PowL=1,
@@ -103,11 +103,17 @@ def gen_configs(tier):
                          W0Step=S // 2, PartVals={S // 2}, Forms={"pair", "single"}, Reds={"default"},
                          FullNoMin=True, MaxDepth=d)),
         ("reductions-ctor", consts(Red0="amax", Reds={"default", "mean", "amin"}, FullKinds={"none"},
-                                   E=1 if tier == "quick" else 2, PartVals={0, S // 2}, Forms={"pair"},
+                                   E=1, PartVals={0, S // 2}, Forms={"pair"},
                                    Families=ALLFAM - {"bound", "some"}, MaxDepth=d)),
+        ("reductions-ctor-2el", consts(Red0="amin", Reds={"default", "mean", "amax"}, FullKinds={"none"},
+                                       E=2, PartVals={0, S // 2}, Forms={"pair"},
+                                       Families=ALLFAM - {"bound", "some"}, MaxDepth=3)),
         ("two-params", consts(PNames={"weight", "bias"}, PartVals={S // 2}, Forms={"pair"}, Reds={"default"},
-                              FullKinds={"mult"}, FullNoMax=True, Families=ALLFAM - {"red"}, MaxDepth=d)),
+                              FullKinds={"mult"}, FullNoMax=True, Families=ALLFAM - {"red"}, MaxDepth=4)),
     ]
+    if tier == "quick":
+        cfgs = [x for x in cfgs if x[0] != "reductions-ctor-2el"]
+    return cfgs
 
 
 def hdr_from_consts(c):
@@ -122,22 +128,33 @@ def _run_parallel(jobs, parallel=4):
         return list(ex.map(lambda j: (j[0], j[1], j[2]()), jobs))
 
 
+def _tlc_job(kind, name, cfg):
+    """One TLC run; the (large) raw output is dropped as soon as it has been parsed."""
+    res = tlc.run("UpdaterMC", cfg, workers=1, timeout=3000)
+    extra = None
+    if kind == "gen" and res.ok:
+        extra = graph.Graph.from_lines(res.printed())
+    elif kind == "mc" and res.violated:
+        extra = sorted({r["clause"] for r in res.printed() if isinstance(r, dict) and "clause" in r})
+    res.out = res.out[-4000:]
+    return res, extra
+
+
 def model_check_and_generate(chk: Check, tier: str):
     """Exhaustive runs and generation runs, one JVM each, side by side.
     workers=1: a TLCGet("level") bound is only complete (and Emit lines only whole) with one worker."""
     jobs = []
     for name, c in mc_configs(tier):
         cfg = tlc.cfg_text(constants=cfg_consts(c), invariants=INVARIANTS, constraints=["Bounded"])
-        jobs.append(("mc:" + name, c, (lambda cfg=cfg: tlc.run("UpdaterMC", cfg, workers=1, timeout=3000))))
+        jobs.append(("mc:" + name, c, (lambda name=name, cfg=cfg: _tlc_job("mc", name, cfg))))
     for name, c in gen_configs(tier):
         cfg = tlc.cfg_text(constants=cfg_consts(c), invariants=["Emit"], constraints=["Bounded"])
-        jobs.append(("gen:" + name, c, (lambda cfg=cfg: tlc.run("UpdaterMC", cfg, workers=1, timeout=3000))))
+        jobs.append(("gen:" + name, c, (lambda name=name, cfg=cfg: _tlc_job("gen", name, cfg))))
     graphs = []
-    for name, c, res in _run_parallel(jobs, parallel=6):
+    for name, c, (res, extra) in _run_parallel(jobs, parallel=6):
         if name.startswith("mc:"):
             if res.violated:
-                clauses = sorted({r["clause"] for r in res.printed() if isinstance(r, dict) and "clause" in r})
-                chk.violation({"clause": "MC:" + ",".join(clauses or res.violated), "site": "spec", "config": name},
+                chk.violation({"clause": "MC:" + ",".join(extra or res.violated), "site": "spec", "config": name},
                               {"config": name, "constants": {k: sorted(v) if isinstance(v, set) else v
                                                              for k, v in c.items()},
                                "tlc_tail": res.out[-4000:]})
@@ -149,12 +166,11 @@ def model_check_and_generate(chk: Check, tier: str):
         else:
             if not res.ok:
                 raise MachineryFailure(f"TLC generation run {name} failed: {res.out[-2000:]}")
-            g = graph.Graph.from_lines(res.printed())
-            # TLC evaluates the Emit "invariant" also on the states just beyond the depth bound (they
-            # are generated and printed with their full outcome table, but not counted as distinct);
-            # Mech states differing only in their caches share one view
-            if len(g.states) == 0 or res.distinct == 0:
-                raise MachineryFailure(f"emitted graph {name} is empty (TLC reports {res.distinct} states)")
+            g = extra
+            # Mech states differing only in their caches share one view: the graph has at most as
+            # many nodes as TLC has states
+            if len(g.states) == 0 or len(g.states) > res.distinct:
+                raise MachineryFailure(f"emitted graph {name} has {len(g.states)} states, TLC reports {res.distinct}")
             g.name = name[4:]
             chk.add_tlc(name, res)
             graphs.append((g, c))
@@ -572,6 +588,8 @@ def canary_trace(chk: Check, trace):
 
 
 def run(tier: str, seed: int) -> int:
+    import os
+    os.environ.setdefault("_JAVA_OPTIONS", "-Xmx2g")    # small models: keep the JVMs of this check small
     chk = Check(PID, tier, seed)
     rng = random.Random(seed)
     chk.extra["rule"] = ("MC: all (state, operation) pairs of the bounded Updater model; replay: one execution per "
